@@ -23,6 +23,14 @@ Theorem C04_refuted_F18 :
 Proof. exact refuted_F18. Qed.
 Print Assumptions C04_refuted_F18.
 
+(* ... and F18 is confined to the two situations it names: failfast assigned on the outermost object of a stack
+   that contains a ThreadsafeForwardingResult / TestResultDecorator / Tagger, or a failfast=True result inside a
+   MultiTestResult.  Everywhere else C04_holds applies. *)
+Theorem C04_F18_confined : forall i, finding_F18 i = true ->
+  set_on_wrapper_stack i = true \/ ff_ctor_in_multi (stack i) = true.
+Proof. exact finding_F18_confined. Qed.
+Print Assumptions C04_F18_confined.
+
 (* verdict: wasSuccessful() after any calls = no error / failure / unexpected success since the last startTestRun *)
 Theorem C04_verdict : forall i pre, wf i -> finding_F18 i = false -> has_e2s i = false ->
   was_ok (fold_left do_op pre (init (stack i) (set_after i))) = want_ok pre.
